@@ -148,6 +148,28 @@ def judge(c, o, pid):
         for b in o.get('bad') or []:
             f.append((p + ':law:' + b.split(':')[0].replace(' ', '-'), 'a DEFLATE/CRC law assumed by the theorems fails on compress/flate: ' + b))
         return f
+    if c.get('mode') == 'probe':
+        return f
+    if c.get('mode') == 'haseof':
+        if pid != 'C08':
+            return f
+        own = o['own']
+        if own != o['closed_ok']:
+            f.append(('c08:eof', 'stream ends with the EOF marker: %s, writer closed without error: %s' % (own, o['closed_ok'])))
+        for ob in o.get('obs') or []:
+            where = 'HasEOF on a %s reader (cursor at %d of %d bytes)' % (ob['kind'], ob['pos'], o['out_len'])
+            if ob['kind'] == 'none':
+                if ob['err'] != 3 or ob['has']:
+                    f.append(('c08:haseof:none', where + ' returned (%s, class %d), expected ErrNoEnd' % (ob['has'], ob['err'])))
+            elif o['out_len'] >= 28:
+                if ob['err'] != 0 or ob['has'] != own:
+                    f.append(('c08:haseof:%s' % ob['kind'], where + ' returned (%s, %s); the last 28 bytes %s the marker' % (
+                        ob['has'], ob.get('msg', 'nil'), 'are' if own else 'are not')))
+            elif ob['has']:
+                f.append(('c08:haseof:%s' % ob['kind'], where + ' reports a marker in a stream shorter than the marker'))
+            if ob['kind'] == 'lenseeker' and ob.get('pos_after') != ob['pos']:
+                f.append(('c08:haseof:cursor-moved', where + ' left the cursor at %s' % ob.get('pos_after')))
+        return f
     if c.get('mode') == 'bam':
         if pid == 'C12':
             if o.get('parse_err'):
@@ -187,8 +209,19 @@ def judge(c, o, pid):
                 f.append(('c08:payload-too-long', where + ' carries %d bytes' % m['plen']))
             if not m['crcok'] or m['isize'] != m['plen']:
                 f.append(('c08:trailer', where + ': CRC32/ISIZE wrong'))
-        closed = any(x['op'] == 'close' for x in c['ops'])
-        # an unclosed writer still holds its active block: the stream then carries a prefix of the data
+        closed = o['closed_ok']
+        if 'expect_overflow' in c:
+            # boundary family: one block whose member length is aimed at 64 KiB
+            refused = any(r[1] not in (0, 1) for r in o['res'])
+            if c['expect_overflow'] and not refused:
+                f.append(('c08:overflow:accepted', 'a member of %d bytes (> 65536) was not refused: results %s' % (c['aim'], o['res'])))
+            if not c['expect_overflow'] and refused:
+                f.append(('c08:overflow:spurious', 'a member of %d bytes (<= 65536) was refused: results %s' % (c['aim'], o['res'])))
+            if not c['expect_overflow'] and not refused and not o['rb_ok']:
+                f.append(('c08:readback', 'a member of %d bytes is not read back by bgzf.Reader: %s' % (c['aim'], o['rb_msg'])))
+            if not c['expect_overflow'] and members and members[0]['len'] != c['aim']:
+                f.append(('c08:aim', 'generator aimed at a member of %d bytes, got %d (probe and writer disagree)' % (c['aim'], members[0]['len'])))
+        # an unclosed (or failed) writer still holds data: the stream then carries a prefix of it
         if not (o['gunzip_ok'] if closed else o['gunzip_same']):
             f.append(('c08:gunzip', 'compress/gzip multistream does not expand the output to the written data: %s' % o.get('gunzip_err', 'data differ')))
         if not (o['data_ok'] if closed else o['data_prefix']) and not o['parse_err']:
@@ -267,23 +300,36 @@ def coq_term(c, o, rng):
     ms = ['(%s, %d, %d, %d, %d)' % (clist(m['hdr']), m['clen'], m['plen'], m['ada'], m['adb']) for m in members]
     cum = o['cum']
     api_cum = [cum[k] if k >= 0 else -1 for k in o['api_k']]
-    res = ['(%d, %d)' % (r[0], r[1]) for r in o['res']]
-    return 'WrCase [%s] %s %d %s %s%%nat %d%%nat [%s] [%s] %s %s %s' % (
+    failed = any(r[1] not in (0, 1) for r in o['res'])
+    res = []
+    for op, r in zip(c['ops'], o['res']):
+        cls = r[1]
+        if failed and op['op'] != 'close':
+            cls = -1   # whether this call already saw the failure depends on timing
+        res.append('(%d, %s)' % (r[0], cz(cls)))
+    probe = ['(%d, %d, %d, %d)' % (q['len'], q['ada'], q['adb'], q['clen']) for q in c.get('probe') or []]
+    return 'WrCase [%s] %s %d %s %s%%nat %d%%nat [%s] [%s] %s %s %s [%s]' % (
         '; '.join(coq_op(x) for x in c['ops']), cz(c['level']), c['wc'], coq_hdr(c.get('hdr')),
-        clist(sched), rounds, '; '.join(res), '; '.join(ms), cb(eof), clist(api_cum), clist(o['w_k']))
+        clist(sched), rounds, '; '.join(res), '; '.join(ms), cb(eof), clist(api_cum), clist(o['w_k']), '; '.join(probe))
+
+
+def he_terms(c, o):
+    kinds = {'sizer': 0, 'stater': 1, 'lenseeker': 2, 'none': 3}
+    return ['HeCase %s %d %d %s %d' % (clist(o['out']), ob['pos'], kinds[ob['kind']], cb(ob['has']), ob['err'])
+            for ob in o.get('obs') or []]
 
 
 def strip(o):
-    d = {k: v for k, v in o.items() if k not in ('stack',)}
+    d = {k: v for k, v in o.items() if k not in ('stack', 'out')}
     if 'members' in d and d['members']:
         d['members'] = [{k: v for k, v in m.items() if k != 'hdr'} for m in d['members'][:6]]
     return d
 
 
 def case_key(c):
-    if c.get('mode') in ('laws', 'bam'):
+    if c.get('mode') in ('laws', 'bam', 'probe'):
         return (c['mode'], str(c.get('refs')), c.get('wc'), c.get('delay'), len(c.get('ops') or []))
-    return (tuple((o['op'], o.get('kind'), o.get('len'), o.get('seed')) for o in c['ops']), c['level'], c['wc'], c['rd'],
+    return (c.get('mode'), tuple((o['op'], o.get('kind'), o.get('len'), o.get('seed')) for o in c['ops']), c['level'], c['wc'], c.get('rd'),
             str(c.get('hdr')), tuple(c.get('reads') or []), c.get('delay'))
 
 
@@ -313,17 +359,21 @@ def run_property(res, rng, pid, cases, nontrivial, bucket, trusted, assume, rule
         res.count(bucket(c, o))
         for sig, what in judge(c, o, pid):
             res.failures.append(dict(sig=sig, what=what, case=c, observed=strip(o)))
-        if c.get('mode') in ('laws', 'bam'):
+        if c.get('mode') in ('laws', 'bam', 'probe'):
             continue
         if any(k in o for k in ('hang', 'panic', 'crash', 'bad_case', 'newerr', 'garbled')):
             res.corr_bad.append(dict(case=c, obs=strip(o)))
+            continue
+        if c.get('mode') == 'haseof':
+            for t in he_terms(c, o):
+                terms.append((c, o, t))
             continue
         if o['parse_err']:
             res.corr_bad.append(dict(case=c, obs=strip(o), note='output unparsable, model not compared'))
             continue
         terms.append((c, o, coq_term(c, o, rng)))
     # big cases cost most: spread them over the shards
-    terms.sort(key=lambda t: -total_len(t[0]['ops']))
+    terms.sort(key=lambda t: -total_len(t[0]['ops']) if t[0].get('mode') == 'rt' else 0)
     nsh = 10
     order = []
     for i in range(nsh):
@@ -340,7 +390,7 @@ def run_property(res, rng, pid, cases, nontrivial, bucket, trusted, assume, rule
                                  note='sequential machine / concurrent model disagree with the implementation (results, member framing, header bytes, BSIZE patch, EOF, durability marks)'))
     res.extra['traces_validated_against_impl'] = len(order) - len(bad)
     res.rule = rule
-    sample = [(c, o) for c, o in zip(cases, obs) if c.get('mode') not in ('laws',)]
+    sample = [(c, o) for c, o in zip(cases, obs) if c.get('mode') not in ('laws', 'probe')]
     res.samples = [dict(case=c, observed=strip(o)) for c, o in sample[:2] + sample[-2:]]
     res.trusted = trusted
     res.assumptions = assume
@@ -353,6 +403,8 @@ def replay_case(pid, rp):
         import json
         print(json.dumps(rp, indent=1)[:3000])
         return 0
+    if c.get('mode') == 'haseof':
+        c = dict(c, tmpdir=core.WORK)
     o = core.run_harness(pid.lower(), [c], case_timeout='30s')[0]
     for k in ('members', 'w_k', 'w_started', 'api_k', 'accepted', 'cum', 'res', 'bad'):
         if k in o and o[k] is None:
